@@ -91,6 +91,34 @@ class StageAnalysis:
                 out = extra
         return out
 
+    _EXHAUST = re.compile(r"(Iterator>?::(collect|try_for_each|for_each|try_fold|fold|count|last|sum)|FromIterator<.*>>::from_iter|Extend<.*>>::extend|Vec::<T, A>::extend)$")
+
+    def _exhausting_map(self, fn, t):
+        """stages that every element of the whole statement list has passed once this call returns successfully: the call
+        drains `whole_list_iter.map(closure)` (collect / try_for_each / extend ...), so the closure ran on every statement
+        (a failing element makes the drained Result an Err, which is not a success path)"""
+        c = callee_of(t) or ""
+        if not self._EXHAUST.search(c) or not t.get("args"):
+            return None
+        tys = " ".join(t.get("arg_tys") or [])
+        if "AsmLine" not in tys or "adapters::map::Map<" not in tys:
+            return None
+        if any(a not in _WHOLE_ADAPTERS for a in re.findall(r"iter::adapters::\w+::(\w+)", tys)):
+            return None
+        e = fn.expr(t["args"][-1] if "extend" in c else t["args"][0], 12)
+        must = None
+        for x in expr_walk(e):
+            if x[0] == "call" and re.search(r"(::index|::get|::split_at|::skip|::take|::filter|::step_by)$", str(x[1])):
+                return None
+            if x[0] == "agg" and isinstance(x[1], tuple) and x[1] and x[1][0] == "closure":
+                nm = x[1][1]
+                summ = self.summary.get(nm)
+                if summ:
+                    sets = [s_ for s_ in summ]
+                    m = frozenset.intersection(*sets) if sets else EMPTY
+                    must = m if must is None else (must | m)
+        return must
+
     def analyse(self, fn, start=0, blocks=None, init=None):
         """dataflow over one function (or a region of it). Returns instate map."""
         errb = kit.error_blocks(fn)
@@ -112,7 +140,11 @@ class StageAnalysis:
                 cs = self.call_sets(t)
                 if not cs:
                     return None
-                return frozenset(a | c for a in st for c in cs)
+                out = frozenset(a | c for a in st for c in cs)
+                must = self._exhausting_map(fn, t)
+                if must:
+                    out = frozenset(a | must for a in out)
+                return out
             return st
 
         def edge(src, dst, st):
